@@ -203,9 +203,11 @@ class GymToLeraxEnv(AbstractEnv[GymEnvState, Array, Array, None]):
         """
 
         def step_callback(action_arr):
-            observation, reward, terminated, truncated, _ = self.env.step(
-                np.asarray(action_arr)
-            )
+            gym_action = np.asarray(action_arr)
+            if isinstance(self.env.action_space, gym.spaces.Discrete):
+                # Gymnasium's discrete environments index tables with the action
+                gym_action = int(gym_action)
+            observation, reward, terminated, truncated, _ = self.env.step(gym_action)
             return (
                 jnp.asarray(observation),
                 jnp.asarray(reward, dtype=float),
